@@ -80,6 +80,7 @@ type metaOp struct {
 	kind     string // create, rename, remove, mkdir, symlink
 	from, to string
 	ino      *inode
+	replaced *inode // rename: what the target name pointed to before (atomic replace)
 }
 
 // Op describes one I/O call for hooks and traces.
@@ -92,7 +93,8 @@ type Op struct {
 // Outcome of a hook: inject an error, a short write, or nothing.
 type Outcome struct {
 	Err   error
-	Short int // >0: write only this many bytes and return an error
+	Short int  // >0: write only this many bytes and return an error
+	Crash bool // the process dies right before this call: the disk freezes, the caller never returns
 }
 
 // FS is one simulated disk.
@@ -103,6 +105,9 @@ type FS struct {
 	journal  []metaOp    // namespace operations not yet durable
 	durRoot  *inode      // durable namespace (rebuilt lazily from a snapshot + journal)
 	OpSeq    int
+	// Frozen: the process that used this disk is gone (crash instant passed);
+	// every os-level call fails without effect until Thaw.
+	Frozen bool
 	// Hook, when set, is consulted at every mutating I/O call and at sync.
 	Hook func(op Op) Outcome
 	// Watch receives namespace and write notifications (simnotify).
@@ -227,10 +232,18 @@ func (f *FS) op(kind, p string) (Outcome, int) {
 		f.Trace = append(f.Trace, o)
 	}
 	if f.Hook != nil {
-		return f.Hook(o), f.OpSeq
+		out := f.Hook(o)
+		if out.Crash {
+			f.Frozen = true
+			simrt.WaitUntil(func() bool { return false })
+		}
+		return out, f.OpSeq
 	}
 	return Outcome{}, f.OpSeq
 }
+
+// Thaw lets a new incarnation use the disk again.
+func (f *FS) Thaw() { f.Frozen = false }
 
 func (f *FS) notify(event, p string) {
 	if f.Watch != nil {
@@ -431,12 +444,11 @@ func (f *FS) undo(op metaOp) {
 		// op.ino = moved inode; op.replaced kept in `from` of a second record
 		if parent, name, n, err := f.walk(op.to, false, 0); err == nil && parent != nil && n == op.ino {
 			delete(parent.children, name)
+			if op.replaced != nil {
+				parent.children[name] = op.replaced
+			}
 		}
 		if parent, name, _, err := f.walk(op.from, false, 0); err == nil && parent != nil {
-			parent.children[name] = op.ino
-		}
-	case "replaced":
-		if parent, name, _, err := f.walk(op.to, false, 0); err == nil && parent != nil {
 			parent.children[name] = op.ino
 		}
 	}
@@ -463,10 +475,7 @@ func (f *FS) rename(from, to string, direct bool) error {
 	delete(fp.children, fname)
 	tp.children[tname] = fn
 	if !direct {
-		if tn != nil {
-			f.journal = append(f.journal, metaOp{kind: "replaced", to: to, ino: tn})
-		}
-		f.journal = append(f.journal, metaOp{kind: "rename", from: from, to: to, ino: fn})
+		f.journal = append(f.journal, metaOp{kind: "rename", from: from, to: to, ino: fn, replaced: tn})
 	}
 	f.RenameCount++
 	f.notify("rename", f.resolveAlias(from))
@@ -506,7 +515,15 @@ type File struct {
 	closed bool
 }
 
-func dead() bool { return simrt.Dead() }
+func dead() bool {
+	if simrt.Dead() {
+		return true
+	}
+	if f := Cur(); f != nil && f.Frozen {
+		return true
+	}
+	return false
+}
 
 var errDead = errors.New("simos: process is gone")
 
